@@ -298,7 +298,12 @@ func (_this *Decoder) decodeArray(arrayType events.ArrayType, eventReceiver even
 }
 
 func (_this *Decoder) decodeMedia(eventReceiver events.DataEventReceiver) {
-	mediaTypeLength := _this.reader.readSmallULEB128("media type length", 0xffffffff)
+	// The reader reserves room for the media type before any rule sees it
+	maxMediaTypeLength := uint64(0xffffffff)
+	if _this.config.Rules.MaxArraySizeBytes < maxMediaTypeLength {
+		maxMediaTypeLength = _this.config.Rules.MaxArraySizeBytes
+	}
+	mediaTypeLength := _this.reader.readSmallULEB128("media type length", maxMediaTypeLength)
 	mediaType := string(_this.reader.ReadBytes(int(mediaTypeLength)))
 	elementBitWidth := 8
 	eventReceiver.OnMediaBegin(mediaType)
